@@ -4,12 +4,12 @@ go 1.22
 
 require (
 	github.com/anishathalye/porcupine v1.3.0
+	github.com/deckarep/golang-set/v2 v2.6.0
 	github.com/karagenc/socket.io-go v0.0.0
 	nhooyr.io/websocket v1.8.11
 )
 
 require (
-	github.com/deckarep/golang-set/v2 v2.6.0 // indirect
 	github.com/fatih/color v1.17.0 // indirect
 	github.com/fatih/structs v1.1.0 // indirect
 	github.com/karagenc/yeast v0.1.1 // indirect
